@@ -12,6 +12,7 @@ import Mathlib.Tactic.Ring
 import Mathlib.Tactic.LinearCombination
 import Mathlib.Tactic.FinCases
 import Mathlib.Algebra.Order.Field.Basic
+import Mathlib.Algebra.BigOperators.Group.List.Basic
 
 set_option linter.unusedSectionVars false
 
@@ -96,6 +97,59 @@ theorem compose_assoc (a b c : M4 R) : (a.compose b).compose c = a.compose (b.co
 
 theorem compose_identity_left (a : M4 R) : M4.identity.compose a = a := Inverse.identity_compose a
 theorem compose_identity_right (a : M4 R) : a.compose M4.identity = a := Inverse.compose_identity a
+
+/-! ### products of any length -/
+
+theorem identity_affine : (M4.identity : M4 R).r3 = ⟨0, 0, 0, 1⟩ := rfl
+
+private theorem foldl_then_affine (ms : List (M4 R)) (acc : M4 R) (ha : acc.r3 = ⟨0, 0, 0, 1⟩)
+    (h : ∀ m ∈ ms, m.r3 = ⟨0, 0, 0, 1⟩) :
+    (ms.foldl (fun acc c => acc.andThen c) acc).r3 = ⟨0, 0, 0, 1⟩ ∧
+    ∀ p, (ms.foldl (fun acc c => acc.andThen c) acc).applyPt p = applyPtSeq ms (acc.applyPt p) := by
+  induction ms generalizing acc with
+  | nil => exact ⟨ha, fun p => rfl⟩
+  | cons c cs ih =>
+    have hc : c.r3 = ⟨0, 0, 0, 1⟩ := h c (List.mem_cons_self)
+    have hacc : (acc.andThen c).r3 = ⟨0, 0, 0, 1⟩ := compose_affine c acc hc ha
+    obtain ⟨i1, i2⟩ := ih (acc.andThen c) hacc (fun m hm => h m (List.mem_cons_of_mem _ hm))
+    refine ⟨i1, fun p => ?_⟩
+    simp only [List.foldl, applyPtSeq] at i2 ⊢
+    rw [i2 p, apply_then acc c ha p]
+
+/-- **Chains of any length.** For affine parts (last row `0 0 0 1`, which every constructor has), applying the
+product `c₁.then(c₂)…then(cₙ)` to a point equals applying `c₁, c₂, …, cₙ` one after the other; and the product
+is affine again. -/
+theorem chain_apply (ms : List (M4 R)) (h : ∀ m ∈ ms, m.r3 = ⟨0, 0, 0, 1⟩) (p : V3 R) :
+    (M4.chain ms).applyPt p = applyPtSeq ms p ∧ (M4.chain ms).r3 = ⟨0, 0, 0, 1⟩ := by
+  cases ms with
+  | nil =>
+    refine ⟨?_, rfl⟩
+    obtain ⟨x, y, z⟩ := p
+    simp only [M4.chain, applyPtSeq, List.foldl, M4.identity, M4.applyPt, dot4, V3.mk.injEq]
+    refine ⟨?_, ?_, ?_⟩ <;> ring
+  | cons m ms =>
+    obtain ⟨i1, i2⟩ := foldl_then_affine ms m (h m (List.mem_cons_self)) (fun c hc => h c (List.mem_cons_of_mem _ hc))
+    exact ⟨by simp only [M4.chain, applyPtSeq, List.foldl]; exact i2 p, i1⟩
+
+example : ∀ m ∈ [translate (⟨1, 2, 3⟩ : V3 Int), scale ⟨2, 2, 2⟩, rotateZ 1 0], m.r3 = ⟨0, 0, 0, 1⟩ := by
+  intro m hm
+  simp only [List.mem_cons, List.not_mem_nil, or_false] at hm
+  rcases hm with rfl | rfl | rfl <;> rfl
+
+private theorem foldl_then_det (ms : List (M4 R)) (acc : M4 R) :
+    (ms.foldl (fun acc c => acc.andThen c) acc).det = acc.det * (ms.map M4.det).prod := by
+  induction ms generalizing acc with
+  | nil => simp
+  | cons c cs ih =>
+    simp only [List.foldl, List.map_cons, List.prod_cons]
+    rw [ih, M4.andThen, Inverse.det_mul]
+    ring
+
+/-- The determinant of a chain is the product of the determinants of its parts. -/
+theorem chain_det (ms : List (M4 R)) : (M4.chain ms).det = (ms.map M4.det).prod := by
+  cases ms with
+  | nil => simp only [M4.chain, List.map_nil, List.prod_nil]; exact Inverse.det_identity
+  | cons m ms => simp only [M4.chain, List.map_cons, List.prod_cons]; exact foldl_then_det ms m
 
 /-! ### transpose -/
 
